@@ -15,15 +15,21 @@ Bodies == << <<>>, <<49>>, <<34, 120, 34>>, <<49, 44>>, <<91, 93, 44, 123, 125>>
             <<123, 34, 107, 34, 58, 123, 34, 106, 34>> >> \* {"k":{"j"
 Tails  == << <<>>, <<32>>, <<120>>, <<44, 49>> >>
 Shapes == {"arr", "obj", "mix"}
+\* the same nestings with a sibling in front of every nested container ([7,[7,[ ...  {"p":1,"a":{"p":1,"a":{ ...): the
+\* per-level element counters are live while deeper levels are parsed, for depths well beyond any small fixed capacity
+PShapes == {"arrp", "objp", "mixp"}
 
 RECURSIVE Rep(_, _)
 Rep(s, n) == IF n = 0 THEN <<>> ELSE s \o Rep(s, n - 1)
 
 KEYOPEN == <<123, 34, 97, 34, 58>>      \* {"a":
+PKEYOPEN == <<123, 34, 112, 34, 58, 49, 44, 34, 97, 34, 58>>      \* {"p":1,"a":
+PARROPEN == <<91, 55, 44>>                                          \* [7,
 \* i-th opener / closer (1 = outermost) for a shape
-IsArrAt(sh, i) == sh = "arr" \/ (sh = "mix" /\ i % 2 = 1)
+IsArrAt(sh, i) == sh \in {"arr", "arrp"} \/ (sh \in {"mix", "mixp"} /\ i % 2 = 1)
+IsP(sh) == sh \in PShapes
 Opener(sh, n) == IF n = 0 THEN <<>> ELSE
-  LET F[i \in 0..n] == IF i = 0 THEN <<>> ELSE F[i - 1] \o (IF IsArrAt(sh, i) THEN <<91>> ELSE KEYOPEN) IN F[n]
+  LET F[i \in 0..n] == IF i = 0 THEN <<>> ELSE F[i - 1] \o (IF IsArrAt(sh, i) THEN (IF IsP(sh) THEN PARROPEN ELSE <<91>>) ELSE (IF IsP(sh) THEN PKEYOPEN ELSE KEYOPEN)) IN F[n]
 \* closers for the innermost 'm' of 'n' open containers
 Closer(sh, n, m) == IF m = 0 THEN <<>> ELSE
   LET F[j \in 0..m] == IF j = 0 THEN <<>> ELSE F[j - 1] \o (IF n - j + 1 >= 1 /\ IsArrAt(sh, n - j + 1) THEN <<93>> ELSE <<125>>) IN F[m]
@@ -32,10 +38,14 @@ Text == Opener(shape, a) \o Bodies[body] \o Closer(shape, a, b) \o Tails[tail]
 
 Grid == {x \in 0..MaxA : x % Step = 0 \/ x <= 3 \/ x \in {15, 16, 17, 31, 32, 33}}
 
+\* depths for the prefixed shapes: around every power of two up to 128 (where a doubling structure regrows), and a stride
+PDepths == {x \in 1..(2 * MaxA + 50) : x <= 3 \/ x % (4 * Step) = 0 \/ \E p \in {16, 32, 64, 128} : x >= p - 1 /\ x <= p + 2}
 \* every opening depth 0..MaxA; closers: none, a few, all but one, all, one too many (b on the grid as well)
-Init == /\ a \in 0..MaxA /\ shape \in Shapes
-        /\ b \in {x \in 0..(a + 1) : x <= 2 \/ x >= a - 1 \/ (x \in Grid /\ a \in Grid)}
-        /\ body \in DOMAIN Bodies /\ tail \in DOMAIN Tails
+Init == \/ /\ a \in 0..MaxA /\ shape \in Shapes
+           /\ b \in {x \in 0..(a + 1) : x <= 2 \/ x >= a - 1 \/ (x \in Grid /\ a \in Grid)}
+           /\ body \in DOMAIN Bodies /\ tail \in DOMAIN Tails
+        \/ /\ a \in PDepths /\ shape \in PShapes
+           /\ b \in {a - 1, a, a + 1} /\ body \in {2, 3} /\ tail = 1
 Next == UNCHANGED <<a, b, shape, body, tail>>
 
 Case == LET x == Text r == ParseText(x) IN
